@@ -102,6 +102,403 @@ def mixed(flag, a):
     q, r = divmod(a, 7)
     return (q, r, flag and a > 0 or not flag and a < 0)
 
+# ---- round 2: loops with early exit, sequences, in-place updates, views, while, floats
+from itertools import product, chain, zip_longest
+from functools import reduce
+from operator import xor
+
+PAIRS = ((1, 10), (2, 20), (3, 30))
+ROWS = ((0, 1, 1, 0), (1, 0, 0, 1), (1, 1, 1, 1))
+
+
+class Buffer:
+    def __init__(self, iterable=()):
+        self._data = bytearray(iterable)
+
+    def extend(self, iterable):
+        self._data.extend(iterable)
+
+    def append_bits(self, val, length):
+        self._data.extend((val >> i) & 1 for i in reversed(range(length)))
+
+    def getbits(self):
+        return self._data
+
+    def toints(self):
+        from itertools import zip_longest
+        return (int(''.join(map(str, g)), 2) for g in zip_longest(*[iter(self._data)] * 8, fillvalue=0))
+
+    def __len__(self):
+        return len(self._data)
+
+    def __getitem__(self, item):
+        return self._data[item]
+
+
+class Box:
+    def __init__(self, items, weight):
+        self.items = items
+        self.weight = weight
+
+    def __len__(self):
+        return len(self.items)
+
+    def cost(self, k):
+        return sum(i * k for i in self.items) + self.weight
+
+
+def first_multiple(n, k):
+    for i in range(1, n):
+        if i % k == 0:
+            return i
+    return -1
+
+def break_sum(n):
+    t = 0
+    for i in range(n):
+        if i > 3:
+            break
+        t += i
+    return t
+
+def skip_odd(n):
+    t = 0
+    for i in range(n):
+        if i % 2:
+            continue
+        if i > 8:
+            break
+        t += i
+    return t * 2
+
+def down(n):
+    acc = 0
+    for i in range(n, 0, -2):
+        acc = acc * 10 + i
+    return acc
+
+def const_break(v):
+    t = 0
+    for k in TABLE:
+        if k == v:
+            break
+        t += k
+    return t
+
+def pair_lookup(v):
+    for a, b in PAIRS:
+        if a == v:
+            return b
+    return 0
+
+def first_fit(need, lo, hi):
+    for v in range(lo, hi + 1):
+        try:
+            if LEVELS[v] >= need:
+                return v
+        except KeyError:
+            pass
+    raise ValueError('no fit')
+
+def try_state(i, k):
+    r = 0
+    try:
+        a = TABLE[i]
+        r = a + TABLE[k]
+        if r > 9:
+            return -r
+    except IndexError:
+        return 100
+    return r
+
+def build(n):
+    out = []
+    for i in range(n):
+        out.append(i * i)
+    out.extend([7, 8])
+    out.extend(x + 1 for x in out[:2])
+    return out
+
+def pops(a):
+    levels = [1, 0, 3, 2]
+    if a < 1:
+        levels.pop()
+        if a < 0:
+            levels.pop()
+    return levels[levels.index(a) + 1:]
+
+def pop_value(xs):
+    ys = list(xs)
+    last = ys.pop()
+    first = ys.pop(0)
+    return (first, last, len(ys))
+
+def slices(xs):
+    return (xs[1:3], xs[:-1], xs[-2:])
+
+def slices2(xs, a):
+    return (xs[2:], xs[5:2], xs[a:], xs[a:-a])
+
+def neg_index(xs):
+    return xs[-1] * 100 + xs[0]
+
+def set_items(xs, i, v):
+    xs[i] = v
+    xs[-1] += 1
+
+def set_byte(ba, i, v):
+    ba[i] = v
+    ba[0] ^= 1
+
+def set_cell(m, i, j, v):
+    m[i][j] = v
+    m[-1][0] = 1
+
+def set_row_slice(m, i, j):
+    m[i][j:j + 3] = ROWS[2][1:4]
+    m[0][1:2] = (9, 9, 9)
+
+def set_slice(xs, a, b):
+    xs[a:b] = [5, 6]
+
+def view_write(m, i):
+    row = m[i]
+    row[0] = 7
+    m[i][1] = 8
+    return row[0] + row[1]
+
+def view_loop(m):
+    last = m[-1]
+    for i in range(len(m)):
+        row = m[i]
+        row[-1] = i
+        last[i] = 1
+
+def aug_cells(m):
+    for i in range(len(m)):
+        row = m[i]
+        for j in range(len(row)):
+            if (i + j) % 2 == 0:
+                row[j] ^= 1
+
+def row_sums(m):
+    out = []
+    for row in m:
+        out.append(sum(row))
+    return out
+
+def enum_zip(xs, ys):
+    t = 0
+    for k, x in enumerate(xs):
+        t += k * x
+    for x, y in zip(xs, ys):
+        t += x * y
+    for x in reversed(xs):
+        t = t * 2 + x
+    return t
+
+def aggregates(xs):
+    if not xs:
+        return (0, 0, 0, False, True)
+    return (sum(x * x for x in xs), min(x + 1 for x in xs), max([abs(x) for x in xs]), any(x > 3 for x in xs), all(xs))
+
+def min_empty(xs):
+    return max(xs) - min(xs)
+
+def cond_tuple(flag, n):
+    a, b = (0, n) if flag else (6, n - 8)
+    return a * 1000 + b
+
+def grid(xs):
+    t = 0
+    for x, y in product(xs, repeat=2):
+        if (x, y) in ((1, 1), (2, 3)):
+            continue
+        t += x * 10 + y
+    return t
+
+def count_pattern(seq):
+    pat = bytearray((1, 0, 1))
+    count = 0
+    idx = seq.find(pat)
+    while idx != -1:
+        count += 1
+        idx = seq.find(pat, idx + 2)
+    return count
+
+def collatz(n):
+    steps = 0
+    while n > 1:
+        if n % 2:
+            n = 3 * n + 1
+        else:
+            n //= 2
+        steps += 1
+    return steps
+
+def pad(buff, capacity, length):
+    write = buff.extend
+    codewords = ((1, 1, 1, 0, 1, 1, 0, 0), (0, 0, 0, 1, 0, 0, 0, 1))
+    write([0] * min(-length % 8, capacity - length))
+    for i in range((capacity - len(buff)) // 8):
+        write(codewords[i % 2])
+    buff.append_bits(5, 4)
+    return len(buff)
+
+def bits_of(val, length):
+    b = Buffer()
+    b.append_bits(val, length)
+    return b.getbits()
+
+def to_ints(buff):
+    return list(buff.toints())
+
+def pairs_of(data):
+    n = len(data)
+    if not n or n % 2:
+        return -1
+    it = iter(data)
+    t = 0
+    for i in range(0, n, 2):
+        code = (next(it) << 8) | next(it)
+        if code > 0x9000:
+            return -2
+        t += code
+    return t
+
+def next_too_far(data):
+    it = iter(data)
+    a = next(it)
+    return a + next(it)
+
+def percent(dark, size):
+    p = float(dark) / (size ** 2)
+    return 10 * int(abs(p * 100 - 50) / 5)
+
+def outer(xs, k):
+    limit = k * 2
+
+    def inner(x):
+        return x + limit if x < limit else -1
+    t = 0
+    for x in xs:
+        t += inner(x)
+    return t
+
+def opt_rows(m):
+    last_row = None
+    score = 0
+    for i in range(len(m)):
+        row = m[i]
+        prev = -1
+        for j in range(len(row)):
+            cur = row[j]
+            if last_row and j and cur == prev == last_row[j] == last_row[j - 1]:
+                score += 3
+            prev = cur
+        last_row = row
+    return score
+
+def late_raise(a, b):
+    return a < b < TABLE[a]
+
+def micro_or(micro, error):
+    allowed = micro or micro is None
+    top = 0 if micro else 40
+    if error is not None and allowed:
+        return top + 1
+    return top
+
+def box_cost(box, k):
+    if len(box) == 1:
+        return box.cost(k) + box.weight
+    return sum(box.items)
+
+def parity(data):
+    return reduce(xor, data)
+
+def digits(data):
+    return data.isdigit()
+
+def interleaved(blocks):
+    return list(x for x in chain.from_iterable(zip_longest(*blocks)) if x is not None)
+
+def final_bits(blocks, short):
+    def to_binary(val, length=8):
+        return ((val >> i) & 1 for i in reversed(range(length)))
+    four = None
+    if short:
+        four = to_binary(blocks[0].pop(-1) >> 4, 4)
+    res = Buffer()
+    res.extend(chain(*map(to_binary, (x for x in chain.from_iterable(zip_longest(*blocks)) if x is not None))))
+    if four is not None:
+        res.extend(four)
+    res.extend(b'\\0' * 3)
+    return res
+
+def xor_of(content):
+    try:
+        data = content.encode('latin-1')
+    except UnicodeError:
+        data = content.encode('utf-8')
+    return reduce(xor, data)
+
+def bool_xor(a, j):
+    up = (a & 2) == 0
+    up ^= j < 6
+    return 1 if up else 0
+
+# ---- outside the subset (round 2)
+def bad_while_nofuel(n):
+    while n > 10:
+        n -= 3
+    return n
+
+def bad_param_store(xs):
+    xs[0] = 1
+    return xs[0]
+
+def bad_alias(xs):
+    ys = xs
+    ys.append(1)
+    return len(xs)
+
+def bad_for_else(n):
+    for i in range(n):
+        pass
+    else:
+        return 1
+    return 0
+
+def bad_step_slice(xs):
+    return xs[::2]
+
+def bad_rebind_base(m):
+    row = m[0]
+    m = [[1]]
+    row[0] = 2
+    return m
+
+def bad_lambda(xs):
+    return sorted(xs, key=lambda x: -x)
+
+def bad_cond_update(xs, flag):
+    return flag and xs.pop() > 0
+
+def bad_grow_while_iterating(xs):
+    for x in xs:
+        if x > 100:
+            xs.append(1)
+    return len(xs)
+
+def bad_tuple_list_eq(xs):
+    return xs == (1, 2)
+
+def bad_loop_local(n):
+    for i in range(n):
+        last = i
+    return last
+
 # ---- outside the subset
 def bad_while(n):
     while n > 0:
@@ -114,31 +511,19 @@ def bad_float(a):
 def bad_str(s):
     return s.upper()
 
-def bad_break(n):
-    t = 0
-    for i in range(n):
-        if i > 3:
-            break
-        t += i
-    return t
-
-def bad_return_in_loop(n):
-    for i in range(n):
-        if i == 3:
-            return i
-    return -1
-
 def bad_global_call(a):
     return len(str(a))
 
-def bad_listcomp(n):
+def listcomp_sum(n):
     return sum([i for i in range(n)])
-
-def bad_late_raise(a, b):
-    return a < b < TABLE[a]
 '''
 
 I, B, S, N = P.INT, P.BOOL, P.STR, P.NONE
+L, BA, BUF, MAT, LMAT = P.LIST(P.INT), P.BYTEARRAY, P.BUFFER, P.LIST(P.BYTEARRAY), P.LIST(P.LIST(P.INT))
+LISTS = [[], [4], [1, 2], [3, 1, 2], [0, 0, 7, 5], [5, 4, 3, 2, 1, 0], [2, 3, 5, 7, 11, 13, 17]]
+BYTES = [[], [1], [1, 0, 1], [49, 50], [1, 0, 1, 0, 1, 1, 0, 1, 0, 1], [0x81, 0x40, 0x9f, 0xfc], [200, 100, 50, 25], [255, 255, 1, 0, 1]]
+BITS = [[], [1], [1, 0, 1], [1, 0, 1, 1, 0, 0, 1, 0], [1, 1, 1, 1, 1, 1, 1, 1, 1], [0, 1, 0, 0, 0, 0, 0, 1, 1, 0, 1, 0, 1, 1, 1, 1, 0, 0, 1]]
+MATS = [[[0, 1], [1, 0]], [[1, 1, 1], [1, 1, 1], [0, 0, 0]], [[0, 0, 0, 0], [0, 1, 1, 0], [0, 1, 1, 0], [1, 1, 1, 1]], [[5]], []]
 SMALL = [-9, -8, -7, -4, -3, -2, -1, 0, 1, 2, 3, 4, 5, 7, 8, 9, 11, 12]
 GOOD = [
     dict(path=['floor_ops'], params={'a': I, 'b': I}, ret=I, samples={'a': SMALL, 'b': SMALL}, nsamples=150),
@@ -155,16 +540,86 @@ GOOD = [
     dict(path=['guarded'], params={'a': I}, ret=I, samples={'a': SMALL + [10]}),
     dict(path=['power'], params={'a': I}, ret=I, samples={'a': SMALL}),
     dict(path=['mixed'], params={'flag': B, 'a': I}, ret=P.TUPLE(I, I, B), samples={'a': SMALL}),
+    dict(path=['listcomp_sum'], params={'n': I}, ret=I, samples={'n': SMALL}),
+    # ---- round 2
+    dict(path=['first_multiple'], params={'n': I, 'k': I}, ret=I, samples={'n': SMALL + [30], 'k': [-2, 0, 1, 3, 7]}),
+    dict(path=['break_sum'], params={'n': I}, ret=I, samples={'n': SMALL}),
+    dict(path=['skip_odd'], params={'n': I}, ret=I, samples={'n': SMALL + [20]}),
+    dict(path=['down'], params={'n': I}, ret=I, samples={'n': SMALL}),
+    dict(path=['const_break'], params={'v': I}, ret=I, samples={'v': SMALL}),
+    dict(path=['pair_lookup'], params={'v': I}, ret=I, samples={'v': SMALL}),
+    dict(path=['first_fit'], params={'need': I, 'lo': I, 'hi': I}, ret=I, samples={'need': [0, 5, 10, 15, 20, 25], 'lo': [-1, 0, 1, 2, 3], 'hi': [0, 1, 2, 5]}),
+    dict(path=['try_state'], params={'i': I, 'k': I}, ret=I, samples={'i': SMALL, 'k': SMALL}, nsamples=150),
+    dict(path=['build'], params={'n': I}, ret=L, samples={'n': [-1, 0, 1, 2, 5]}),
+    dict(path=['pops'], params={'a': I}, ret=L, samples={'a': SMALL}),
+    dict(path=['pop_value'], params={'xs': L}, ret=P.TUPLE(I, I, I), samples={'xs': LISTS}),
+    dict(path=['slices'], params={'xs': L}, ret=P.TUPLE(L, L, L), samples={'xs': LISTS}),
+    dict(path=['slices2'], params={'xs': L, 'a': I}, ret=P.TUPLE(L, L, L, L), samples={'xs': LISTS, 'a': [-7, -2, 0, 1, 3, 9]}),
+    dict(path=['neg_index'], params={'xs': L}, ret=I, samples={'xs': LISTS}),
+    dict(path=['set_items'], params={'xs': L, 'i': I, 'v': I}, ret=N, mutates=['xs'], samples={'xs': LISTS, 'i': [-8, -3, -1, 0, 1, 2, 6], 'v': [-1, 300]}),
+    dict(path=['set_byte'], params={'ba': BA, 'i': I, 'v': I}, ret=N, mutates=['ba'], samples={'ba': BYTES, 'i': [-5, -1, 0, 2, 9], 'v': [-1, 0, 255, 256]}),
+    dict(path=['set_cell'], params={'m': MAT, 'i': I, 'j': I, 'v': I}, ret=N, mutates=['m'],
+         samples={'m': MATS, 'i': [-3, -1, 0, 1, 3], 'j': [-4, -1, 0, 2, 3], 'v': [0, 7, 256]}, nsamples=150),
+    dict(path=['set_row_slice'], params={'m': MAT, 'i': I, 'j': I}, ret=N, mutates=['m'], samples={'m': MATS, 'i': [-2, 0, 1, 3, 5], 'j': [-2, 0, 1, 2, 6]}),
+    dict(path=['set_slice'], params={'xs': L, 'a': I, 'b': I}, ret=N, mutates=['xs'], samples={'xs': LISTS, 'a': [-9, -2, 0, 1, 3, 9], 'b': [-9, -1, 0, 2, 4, 9]}),
+    dict(path=['view_write'], params={'m': MAT, 'i': I}, ret=I, mutates=['m'], samples={'m': MATS, 'i': [-2, -1, 0, 1, 2, 4]}),
+    dict(path=['view_loop'], params={'m': MAT}, ret=N, mutates=['m'], samples={'m': MATS}),
+    dict(path=['aug_cells'], params={'m': MAT}, ret=N, mutates=['m'], samples={'m': MATS}),
+    dict(path=['row_sums'], params={'m': MAT}, ret=L, samples={'m': MATS}),
+    dict(path=['enum_zip'], params={'xs': L, 'ys': L}, ret=I, samples={'xs': LISTS, 'ys': LISTS}),
+    dict(path=['aggregates'], params={'xs': L}, ret=P.TUPLE(I, I, I, B, B), samples={'xs': LISTS + [[-4, 2], [-1, -2, -3]]}),
+    dict(path=['min_empty'], params={'xs': L}, ret=I, samples={'xs': LISTS}),
+    dict(path=['cond_tuple'], params={'flag': B, 'n': I}, ret=I, samples={'n': SMALL}),
+    dict(path=['grid'], params={'xs': L}, ret=I, samples={'xs': LISTS}),
+    dict(path=['count_pattern'], params={'seq': BA}, ret=I, samples={'seq': BYTES + [[1, 0, 1, 0, 1, 0, 1], [1, 0, 1, 1, 0, 1]]},
+         fuel={'idx != -1': 'len(seq) + 1'}),
+    dict(path=['collatz'], params={'n': I}, ret=I, samples={'n': [-3, 0, 1, 2, 3, 6, 7]}, fuel={'n > 1': '20'}),
+    dict(path=['pad'], params={'buff': BUF, 'capacity': I, 'length': I}, ret=I, mutates=['buff'],
+         samples={'buff': BITS, 'capacity': [0, 8, 20, 36, 40], 'length': [0, 3, 8, 19]}, nsamples=100),
+    dict(path=['bits_of'], params={'val': I, 'length': I}, ret=BA, samples={'val': [-5, 0, 1, 5, 255, 1000], 'length': [-1, 0, 1, 4, 8, 11]}),
+    dict(path=['to_ints'], params={'buff': BUF}, ret=L, samples={'buff': BITS}),
+    dict(path=['pairs_of'], params={'data': BA}, ret=I, samples={'data': BYTES}),
+    dict(path=['next_too_far'], params={'data': BA}, ret=I, samples={'data': BYTES}),
+    dict(path=['percent'], params={'dark': I, 'size': I}, ret=I, samples={'dark': [0, 1, 100, 200, 220, 221, 242, 243, 441], 'size': [0, 1, 21, 25]}),
+    dict(path=['outer', 'inner'], params={'x': I}, closure={'limit': I}, ret=I, samples={'x': SMALL, 'limit': [0, 4]},
+         pycall=lambda a: (a['x'] + a['limit'] if a['x'] < a['limit'] else -1)),
+    dict(path=['outer'], params={'xs': L, 'k': I}, ret=I, samples={'xs': LISTS, 'k': [-1, 0, 2, 5]}),
+    dict(path=['opt_rows'], params={'m': MAT}, ret=I, samples={'m': MATS}),
+    dict(path=['late_raise'], params={'a': I, 'b': I}, ret=B, samples={'a': SMALL, 'b': SMALL}),
+    dict(path=['micro_or'], params={'micro': P.OPT(B), 'error': P.OPT(I)}, ret=I, samples={'micro': [None, False, True], 'error': [None, 0, 1]}),
+    dict(path=['Box', 'cost'], method=True, params={'k': I}, ret=I, opaque={'self.items': ('items', L), 'self.weight': ('weight', I)},
+         samples={'items': LISTS, 'k': [-1, 0, 3], 'weight': [0, 5]}, pycall='box_cost_method'),
+    dict(path=['box_cost'], params={'box': P.OBJ('Box', items=L, weight=I, __len__=I), 'k': I}, ret=I,
+         samples={'items': LISTS, 'k': [-1, 0, 3], 'weight': [0, 5], 'n_box': [0, 1, 2]}, pycall='box_cost_call'),
+    dict(path=['parity'], params={'data': BA}, ret=I, samples={'data': BYTES}),
+    dict(path=['digits'], params={'data': BA}, ret=B, samples={'data': BYTES}),
+    dict(path=['bool_xor'], params={'a': I, 'j': I}, ret=I, samples={'a': SMALL, 'j': SMALL}),
+    dict(path=['interleaved'], params={'blocks': MAT}, ret=L, samples={'blocks': MATS + [[[1, 2, 3], [4], [5, 6]], [[], [7]]]}),
+    dict(path=['final_bits', 'to_binary'], params={'val': I, 'length': I}, ret=L, samples={'val': [0, 5, 255, 256, -3], 'length': [-1, 0, 4, 8]},
+         pycall=lambda a: [(a['val'] >> i) & 1 for i in reversed(range(a['length']))]),
+    dict(path=['final_bits'], params={'blocks': MAT, 'short': B}, ret=BUF, mutates=['blocks'],
+         samples={'blocks': [[[1, 2, 3], [4], [5, 6]], [[200, 17]], [[], [7]], [], [[0x5f]]]}),
+    dict(path=['xor_of'], params={'content': S}, ret=I,
+         opaque={"content.encode('latin-1')": ('latin1', P.RAISES(BA)), "content.encode('utf-8')": ('utf8', P.RAISES(BA))},
+         samples={'content': ['x'], 'latin1': [[1, 2, 7], [], ('raise', 'UnicodeError'), ('raise', 'LookupError')],
+                  'utf8': [[0xe2, 0x82, 0xac], [], ('raise', 'UnicodeError')]}, pycall='xor_of_call'),
 ]
 BAD = [
     dict(path=['bad_while'], params={'n': I}, ret=I),
     dict(path=['bad_float'], params={'a': I}, ret=I),
     dict(path=['bad_str'], params={'s': S}, ret=S),
-    dict(path=['bad_break'], params={'n': I}, ret=I),
-    dict(path=['bad_return_in_loop'], params={'n': I}, ret=I),
     dict(path=['bad_global_call'], params={'a': I}, ret=I),
-    dict(path=['bad_listcomp'], params={'n': I}, ret=I),
-    dict(path=['bad_late_raise'], params={'a': I, 'b': I}, ret=B),
+    dict(path=['bad_while_nofuel'], params={'n': I}, ret=I),
+    dict(path=['bad_param_store'], params={'xs': L}, ret=I),
+    dict(path=['bad_alias'], params={'xs': L}, ret=I),
+    dict(path=['bad_for_else'], params={'n': I}, ret=I),
+    dict(path=['bad_step_slice'], params={'xs': L}, ret=L),
+    dict(path=['bad_rebind_base'], params={'m': MAT}, ret=MAT, mutates=['m']),
+    dict(path=['bad_lambda'], params={'xs': L}, ret=L),
+    dict(path=['bad_cond_update'], params={'xs': L, 'flag': B}, ret=B, mutates=['xs']),
+    dict(path=['bad_loop_local'], params={'n': I}, ret=I),
+    dict(path=['bad_grow_while_iterating'], params={'xs': L}, ret=I, mutates=['xs']),
+    dict(path=['bad_tuple_list_eq'], params={'xs': L}, ret=B),
 ]
 
 
@@ -174,9 +629,31 @@ def main():
     exec(compile(SRC, '<sample>', 'exec'), mod.__dict__)
     tree = ast.parse(SRC)
     tr = P.Translation({'sample': mod}, {'sample': tree}, {'sample': {}})
+
+    class FakeBox:
+        def __init__(self, items, weight, n):
+            self.items, self.weight, self.n = items, weight, n
+
+        def __len__(self):
+            return self.n
+        cost = mod.Box.cost
+    def xor_of_call(a):
+        outcomes = {'latin-1': a['latin1'], 'utf-8': a['utf8']}
+
+        class Str(str):
+            def encode(self, encoding='utf-8', errors='strict'):
+                r = outcomes[encoding]
+                if isinstance(r, tuple) and r[0] == 'raise':
+                    raise {'UnicodeError': UnicodeError, 'LookupError': LookupError}[r[1]]('x')
+                return bytes(r)
+        return mod.xor_of(Str(a['content']))
+    calls = {'xor_of_call': xor_of_call, 'box_cost_method': lambda a: mod.Box(a['items'], a['weight']).cost(a['k']),
+             'box_cost_call': lambda a: mod.box_cost(FakeBox(a['items'], a['weight'], a['n_box']), a['k'])}
     for spec in GOOD + BAD:
         spec['module'] = 'sample'
         spec['name'] = spec['path'][-1]
+        if isinstance(spec.get('pycall'), str):
+            spec['pycall'] = calls[spec['pycall']]
         tr.add(spec)
     failed = False
     status = dict(tr.report)
@@ -192,7 +669,8 @@ def main():
             print('refused as expected:', spec['name'], '--', status[spec['name']])
     good_names = {s['name'] for s in GOOD}
     tr.defs = [(n, t) for n, t in tr.defs if n in good_names]
-    text = tr.funcs_text().replace('namespace Gen.Funcs', 'namespace Gen.TestFuncs').replace('end Gen.Funcs', 'end Gen.TestFuncs')
+    text = tr.funcs_text().replace('namespace Gen.Funcs', 'namespace Gen.TestFuncs').replace('end Gen.Funcs', 'end Gen.TestFuncs') \
+        .replace('import Gen.Py\n', 'import Gen.Py2\n')
     checks = '\n\n'.join(tr.checks)
     with tempfile.TemporaryDirectory() as d:
         path = os.path.join(d, 'TestFuncs.lean')
@@ -206,7 +684,7 @@ def main():
             open(keep, 'w').write(open(path).read())
             print('FAIL: Lean rejected the translation or a sample evaluation differs; file kept at', keep)
             failed = True
-    n = sum(int(status[s['name']].split('(')[1].split()[0]) for s in GOOD if '(' in status[s['name']])
+    n = sum(int(status[s['name']].split('(')[1].split()[0]) for s in GOOD if status[s['name']].startswith('ok ('))
     print(f'{len(GOOD)} functions translated, {n} sample evaluations compared by the kernel, {len(BAD)} refusals')
     sys.exit(1 if failed else 0)
 
